@@ -4,6 +4,7 @@ import (
 	"bytes"
 	"fmt"
 	"runtime"
+	"runtime/debug"
 	"syscall"
 	"testing"
 	"time"
@@ -39,9 +40,18 @@ func parseTimed(src []byte, v px.Ver, limit time.Duration) timed {
 	go func() {
 		runtime.LockOSThread()
 		defer runtime.UnlockOSThread()
+		// no collection while the clock runs: how much marking the parsing goroutine is made to do
+		// (GC assists) depends on how busy the other cores are, not on the parser; the collection
+		// happens afterwards, outside the measurement, and leaves a warm heap for the next parse
+		old := debug.SetGCPercent(-1)
 		t0 := threadCPU()
 		r := px.Parse(src, v, true)
-		ch <- timed{cpu: threadCPU() - t0, panic: r.Panic}
+		d := threadCPU() - t0
+		debug.SetGCPercent(old)
+		p := r.Panic
+		r = px.Result{}
+		runtime.GC()
+		ch <- timed{cpu: d, panic: p}
 	}()
 	select {
 	case r := <-ch:
@@ -183,9 +193,21 @@ func scalingVerdict(sh shape, v px.Ver) (bad bool, msg string, hang bool, big []
 	if r12 <= scaleRatio || t2.cpu < 40*time.Millisecond {
 		return false, "", false, nil
 	}
-	// suspicious: re-measure the middle size (best of 2) and confirm at the next size
-	if t2b := parseTimed(s2, v, 120*time.Second); !t2b.hang && t2b.cpu < t2.cpu {
-		t2 = t2b
+	// suspicious. Measure again before believing it: the first parse of a size pays for memory the
+	// process has never touched (heap growth, page faults — very expensive on a freshly restored
+	// virtual machine, where the small size ran in warm memory and the large one did not), the
+	// second one runs in the heap the first one left behind. Every size counts with its best time.
+	best := func(src []byte, first timed, limit time.Duration) timed {
+		if again := parseTimed(src, v, limit); !again.hang && again.panic == "" && again.cpu < first.cpu {
+			return again
+		}
+		return first
+	}
+	t2 = best(s2, t2, 120*time.Second)
+	t1 = best(s1, t1, 60*time.Second)
+	harness.EvalN(2)
+	if float64(t2.cpu)/float64(t1.cpu+slack) <= scaleRatio {
+		return false, "", false, nil
 	}
 	step, need := scaleFactor, scaleRatio
 	if t2.cpu > 1500*time.Millisecond {
@@ -193,9 +215,13 @@ func scalingVerdict(sh shape, v px.Ver) (bad bool, msg string, hang bool, big []
 	}
 	s3 := sh.build(scaleBase * scaleFactor * step)
 	t3 := parseTimed(s3, v, 300*time.Second)
-	harness.EvalN(2)
+	harness.EvalN(1)
 	if t3.hang {
 		return true, fmt.Sprintf("inputs of %d / %d / %d bytes took %v / %v / more than 300 s", len(s1), len(s2), len(s3), t1.cpu, t2.cpu), true, s2
+	}
+	if float64(t3.cpu)/float64(t2.cpu+slack) > need {
+		t3 = best(s3, t3, 300*time.Second)
+		harness.EvalN(1)
 	}
 	r12 = float64(t2.cpu) / float64(t1.cpu+slack)
 	r23 := float64(t3.cpu) / float64(t2.cpu+slack)
